@@ -152,7 +152,7 @@ def run(ctx):
     # every interpolated / irrational planner path x knob.  Down-sampling: a sum of 8 stop-band tones stratified over the WHOLE band from
     # the configured stop-band start to the input Nyquist limit (first percent above the start, the stretch below the lower Nyquist limit
     # when stopband_begin < 1, first alias zone, equal strata of the rest); up-sampling: image lines of two in-band tones
-    sel_t, st_t = S.cover(rng, ["base", "ph*", "sb<1", "sb>1", "sb>1.1", "pb", "prec"], S.COVER_IRRATIONAL + S.RATIOS_ARB, per_ratio=2 if quick else 6,
+    sel_t, st_t = S.cover(rng, ["base", "ph*", "sb<1", "sb>1", "sb>1.1", "pb", "prec", "gain"], S.COVER_IRRATIONAL + S.RATIOS_ARB, per_ratio=2 if quick else 6,
                           members=1, max_period=1 << 30, rtflags=(None, None, 2, 3))
     ctx.cov["covering_pool_tones"] = st_t
     jobs = []
